@@ -25,7 +25,7 @@ from pdmesh_common import split
 PROP = "C10"
 IFACES = ["kernel", "direct", "keyword", "bumps", "sasview"]
 QUICK = ["cylinder", "sphere", "core_multi_shell", "hardsphere", "broad_peak", "parallelepiped", "onion", "lamellar",
-         "hayter_msa", "ellipsoid"]
+         "hayter_msa", "ellipsoid", "stacked_disks", "core_shell_sphere", "rpa"]
 
 
 def all_models():
